@@ -219,3 +219,139 @@ class SingleSettingRepetitions(E2Contract):
                 eq("deterministic-function-of-the-seed", out["only-the-named-source"], True,
                    "all draws come from the stream the seed / generator identifies (the global state only when no seed is given): repeating the run reproduces it"),
                 eq("re-estimation-reproduces-the-estimates", out["re-estimates"], out["estimates"], "estimating again from the stored empirical distributions gives the stored estimates")]
+
+
+# ------------------------------------------------------------------ the test-setting flow
+
+def _noop(*a, **k):
+    return None
+
+
+def _test_setting(W, n_rep, n_sample, num_data):
+    sim = W.mod(SIM)
+    c_sys = make_csys(W, "1q")
+    est = W.mod(STD + "linear_estimator").LinearEstimator()
+    ns = sim.NoiseSetting
+    return sim.EstimatorTestSetting(true_object=ns(("state", "z0"), "depolarized", {"error_rate": 0.125}),
+                                    tester_objects=[ns(("povm", a), "depolarized", {"error_rate": 0.25}) for a in ("x", "y", "z")],
+                                    seed_data=777, seed_qoperation=888, n_rep=n_rep, num_data=num_data, n_sample=n_sample, schedules="all",
+                                    case_names=["linear(True)", "linear(False)"], estimators=[est, est], eps_proj_physical_list=[1e-13, 1e-13],
+                                    eps_truncate_imaginary_part_list=[1e-13, 1e-13], algo_list=[(None, None), (None, None)],
+                                    loss_list=[(None, None), (None, None)], parametrizations=[True, False], c_sys=c_sys)
+
+
+NO_CHECKS = dict(consistency=False, mse_of_estimators=False, mse_of_empi_dists=False, physicality_violation=False)
+
+
+class FlowTestSettingUnit(E2Contract):
+    """execute_simulation_test_setting_unit: per-repetition streams spawned from the data seed; results independent of worker counts / task order"""
+    name = "simulation flow (test setting unit)"
+    prop = "C15"
+    targets = (FLOW + ":execute_simulation_test_setting_unit", FLOW + ":execute_simulation_sample_unit", FLOW + ":execute_simulation_case_unit",
+               SIM + ":execute_estimation", SIM + ":generate_qtomography", SIM + ":EstimatorTestSetting.to_simulation_setting",
+               SIM + ":EstimatorTestSetting.to_generation_settings", SIM + ":NoiseSetting.to_generation_setting")
+    n_conformance = 0
+    max_paths = 64
+    frame = False
+    stubs = {FLOW + ":write_result_case_unit": _noop, FLOW + ":write_result_sample_unit": _noop, FLOW + ":write_result_test_setting_unit": _noop}
+
+    def configs(self, tier):
+        return [(2, 2), (3, 1)] + ([(4, 2)] if tier == "thorough" else [])
+
+    def inputs(self, W, cfg, mk):
+        return dict(probe=mk.real("probe"))
+
+    def run(self, W, cfg, inp):
+        n_rep, n_sample = cfg
+        flow = W.mod(FLOW)
+        out = {}
+        if W.symbolic:
+            from qverif.symtwin import symjoblib
+
+            def once(order, jobs):
+                symrandom.reset()
+                symjoblib.ORDER[0] = order
+                ts = _test_setting(W, n_rep, n_sample, [4, 8])
+                pm = None if jobs is None else dict(per_sample_unit=jobs, per_data_generation=jobs, per_estimator_unit=jobs, per_estimator_execution=jobs)
+                res = flow.execute_simulation_test_setting_unit(ts, 0, "/nonexistent/qverif", exec_sim_check=dict(NO_CHECKS), pdf_mode="none", parallel_mode=pm,
+                                                                 is_computation_time_required=False)
+                return res, list(symrandom.DRAW_LOG)
+            try:
+                res, log = once("forward", None)
+                res2, _ = once("reverse", 4)
+                res3, _ = once("rotate", 2)
+            finally:
+                symjoblib.ORDER[0] = "forward"
+            data = lambda rs: [[[d for _, d in _pairs(seq)] for seq in r.empi_dists_sequences] for r in rs]
+            ests = lambda rs: [[e.estimated_var_sequence for e in r.estimation_results] for r in rs]
+            tags = [[symrandom.draw_tags(rep) for rep in r] for r in data(res)]
+            out["n_results"] = len(res)
+            out["reps"] = [len(r.empi_dists_sequences) for r in res]
+            out["disjoint"] = all(not (t[i] & t[j]) for t in tags for i in range(len(t)) for j in range(i + 1, len(t)))
+            out["own-stream"] = all(len(t[i]) > 0 and all(sid == ("ss", ("root", 777), i) for sid, _ in t[i]) for t in tags for i in range(len(t)))
+            out["no-global"] = len(log) > 0 and all(e[0][0] == "ss" for e in log)
+            out["data"] = data(res)
+            out["data-other-schedules"] = [data(res2), data(res3)]
+            out["estimates"] = ests(res)
+            out["estimates-other-schedules"] = [ests(res2), ests(res3)]
+            out["truth"] = [stacked(W, r.simulation_setting.true_object) for r in res]
+            out["truth-other-schedules"] = [[stacked(W, r.simulation_setting.true_object) for r in rr] for rr in (res2, res3)]
+            return out
+        import numpy
+        import shutil
+        import tempfile
+        import io
+        import contextlib
+
+        def once(global_seed, jobs):
+            numpy.random.seed(global_seed)
+            d = tempfile.mkdtemp(prefix="qverif_c15_")
+            try:
+                ts = _test_setting(W, n_rep, n_sample, [1000, 4000])
+                pm = None if jobs is None else dict(per_sample_unit=jobs, per_data_generation=jobs, per_estimator_unit=jobs, per_estimator_execution=jobs)
+                with contextlib.redirect_stdout(io.StringIO()), contextlib.redirect_stderr(io.StringIO()):
+                    return flow.execute_simulation_test_setting_unit(ts, 0, d, exec_sim_check=dict(NO_CHECKS), pdf_mode="none", parallel_mode=pm,
+                                                                      is_computation_time_required=False)
+            finally:
+                shutil.rmtree(d, ignore_errors=True)
+        res = once(1, None)
+        res2 = once(2, 1)
+        data = lambda rs: [_plain(r.empi_dists_sequences) for r in rs]
+        ests = lambda rs: [[e.estimated_var_sequence for e in r.estimation_results] for r in rs]
+        d1 = data(res)
+        out["n_results"] = len(res)
+        out["reps"] = [len(r.empi_dists_sequences) for r in res]
+        out["disjoint"] = all(r[i] != r[j] for r in d1 for i in range(len(r)) for j in range(i + 1, len(r)))
+        # native proxy of the ghost-stream clause: repetition i is what the i-th child of SeedSequence(seed_data) generates on its own
+        sim = W.mod(SIM)
+        own = True
+        for r in res:
+            st = r.simulation_setting
+            qt = sim.generate_qtomography(st, para=True, init_with_seed=False)
+            kids = numpy.random.SeedSequence(777).spawn(n_rep)
+            for i in range(n_rep):
+                alone = qt.generate_empi_dists_sequence(st.true_object, st.num_data, numpy.random.Generator(numpy.random.MT19937(kids[i])))
+                own = own and _plain(alone) == _plain(r.empi_dists_sequences[i])
+        out["own-stream"] = own
+        out["no-global"] = d1 == data(res2)
+        out["data"] = d1
+        out["data-other-schedules"] = [data(res2), data(res2)]
+        out["estimates"] = ests(res)
+        out["estimates-other-schedules"] = [ests(res2), ests(res2)]
+        out["truth"] = [stacked(W, r.simulation_setting.true_object) for r in res]
+        out["truth-other-schedules"] = [[stacked(W, r.simulation_setting.true_object) for r in rr] for rr in (res2, res2)]
+        return out
+
+    def post(self, W, cfg, inp, out):
+        n_rep, n_sample = cfg
+        return [eq("one-result-per-sample-and-case", out["n_results"], 2 * n_sample, "n_sample x cases results"),
+                eq("n_rep-datasets-per-result", out["reps"], [n_rep] * (2 * n_sample), "every result stores n_rep repetitions"),
+                eq("repetitions-use-independent-draws", out["disjoint"], True, "no two repetitions of a sample depend on a common random draw"),
+                eq("repetition-i-draws-only-from-the-i-th-spawned-stream", out["own-stream"], True,
+                   "repetition i depends only on draws of the i-th child of SeedSequence(seed_data): a function of (seed_data, i), not of scheduling"),
+                eq("global-random-state-untouched", out["no-global"], True, "no draw comes from the global numpy state"),
+                eq("data-independent-of-schedule-and-worker-count", out["data-other-schedules"], [out["data"], out["data"]],
+                   "reversed / rotated task execution order and other n_jobs settings give the same empirical distributions"),
+                eq("estimates-independent-of-schedule-and-worker-count", out["estimates-other-schedules"], [out["estimates"], out["estimates"]],
+                   "... and the same estimates"),
+                eq("objects-independent-of-schedule-and-worker-count", out["truth-other-schedules"], [out["truth"], out["truth"]], "... and the same generated true objects")]
